@@ -1,4 +1,7 @@
-use std::io::{self, BufReader, Read};
+use std::{
+    io::{self, BufReader, Read},
+    iter,
+};
 
 use noodles_bam as bam;
 use noodles_bgzf as bgzf;
@@ -110,8 +113,15 @@ where
             Inner::BamRaw(reader) => Box::new(reader.records().map(|result| {
                 result.map(|record| Box::new(record) as Box<dyn sam::alignment::Record>)
             })),
-            Inner::Cram(reader) => Box::new(reader.get_mut().records(header).map(|result| {
-                result.map(|record| Box::new(record) as Box<dyn sam::alignment::Record>)
+            // The buffered reader holds the rest of the container `read_record` took a record from.
+            Inner::Cram(reader) => Box::new(iter::from_fn(move || {
+                let mut record = sam::alignment::RecordBuf::default();
+
+                match reader.read_record_buf(header, &mut record) {
+                    Ok(0) => None,
+                    Ok(_) => Some(Ok(Box::new(record) as Box<dyn sam::alignment::Record>)),
+                    Err(e) => Some(Err(e)),
+                }
             })),
         };
 
